@@ -101,12 +101,18 @@ def run(res, a):
                 res.violation("impl:%s:crash" % build, "t_secure (%s build) exited with %d during/after: %s ; %s" % (build, rc, last, err[-400:]),
                               witness="t_secure(%s) seed %d, %s" % (build, a.seed, last))
         total_t += len(tl)
-        total_f += len(fl)
+        total_f += len([l for l in fl if not l.startswith(("F mem", "F memf"))])
         distinct.update(l for l in fl if not l.startswith(("F mem", "F memf")))
         distinct.update(l for l in tl if l.startswith("T ep"))
         fops = collections.Counter(l.split()[4] for l in fl if l.startswith("F op "))
         fpure = collections.Counter(l.split()[1] for l in fl if not l.startswith(("F op ", "F mem", "F memf")))
-        dist[build] = {"T": dict(cnt), "F_ops": dict(fops), "F_other": dict(fpure)}
+        ferr = collections.Counter()
+        for l in fl:
+            if l.startswith("F op "):
+                r = l.split("=", 1)[1].split("|")[0].split()
+                if int(r[1]) > 0:
+                    ferr["%s:%s" % (l.split()[4], ",".join(r[2:]))] += 1
+        dist[build] = {"T": dict(cnt), "F_ops": dict(fops), "F_ops_with_errors": dict(ferr), "F_other": dict(fpure)}
         eps = [l for l in tl if l.startswith("T ep")]
         if eps:
             samples += [eps[0], eps[len(eps) // 2]]
